@@ -9,7 +9,6 @@
   with objective 0; the x-range filter keeps exactly the points with `low ≤ x < high`.
 -/
 import QExPy.Lemmas.FitSums
-import QExPy.Props.C07
 import Mathlib.Algebra.Polynomial.Roots
 
 namespace QExPy
@@ -166,26 +165,8 @@ theorem C06_polyfit_characterisation (n d : Nat) (x s y p : Nat → ℝ)
 /-- **C06 (order).** Row `i` of the design matrix applied to `p` is
     `Σ_k p_k · x_i^(d−k)`: the first parameter multiplies the highest power. -/
 theorem C06_order (d : Nat) (x p : Nat → ℝ) (i : Nat) :
-    pred (d + 1) (design d x) p i = ∑ k ∈ Finset.range (d + 1), p k * x i ^ (d - k) := by
-  simp only [pred, design, sumN_eq, npow_eq, num_mul]
-  apply Finset.sum_congr rfl
-  intro k _
-  ring
-
-/-- **C06.** The generated pre-set polynomial model at the parameters `p` is the design matrix
-    applied to `p` — the function whose residuals `polyfit` minimises is the model function the
-    fit result evaluates. -/
-theorem C06_poly_design (d : Nat) (x p : Nat → ℝ) (i : Nat) :
-    fval (modelExpr .polynomial (d + 1)) (d + 1) p (x i) = pred (d + 1) (design d x) p i := by
-  rw [C06_order]
-  unfold fval modelExpr
-  rw [C07_poly_model]
-  simp only [List.length_map, List.length_range]
-  apply Finset.sum_congr rfl
-  intro k hk
-  have hk' := Finset.mem_range.mp hk
-  rw [eval_vars_getD _ _ _ hk']
-  simp [eval, envOf, hk']
+    pred (d + 1) (design d x) p i = ∑ k ∈ Finset.range (d + 1), p k * x i ^ (d - k) :=
+  design_pred_eq d x p i
 
 /-- **C06 (residual-scaled covariance).** the scale factor is `S(p)/(n − m)` -/
 theorem C06_cov_factor (n m : Nat) (A : Nat → Nat → ℝ) (s y p : Nat → ℝ) :
@@ -281,16 +262,6 @@ theorem C06_eff_var (e : Expr ℝ) (m : Nat) (p1 : Nat → ℝ) (pt : Pt ℝ)
     rw [hfun]
     exact h
 
-/-- **C06 (objective of a linear model).** For the polynomial model the general objective is
-    the linear least-squares objective, so `C06_wls_optimal` is about the same function. -/
-theorem C06_objective_poly (n d : Nat) (x y s p : Nat → ℝ) :
-    objectiveNL (modelExpr .polynomial (d + 1)) n (d + 1) x y s p
-      = objective n (d + 1) (design d x) s y p := by
-  simp only [objectiveNL, objective, resid]
-  congr 1
-  funext i
-  rw [C06_poly_design]
-
 /-! ### non-vacuity -/
 
 /-- the hypothesis of `C06_wls_optimal` is satisfiable: fitting a constant to (1, 3) gives 2 -/
@@ -309,8 +280,9 @@ example : NormalPosDef 2 1 (fun _ _ => (1:ℝ)) (fun _ => 1) := by
   have := sq_pos_of_ne_zero hv
   linarith
 
-/-- the domain hypothesis of `C06_grad` holds for the pre-set linear model at every point -/
-example (p : Nat → ℝ) (x : ℝ) : InDom (envOf 2 p x) (modelExpr .linear 2) := by
-  simp [modelExpr, Gen.fitRule, Expr.arg, List.range_succ, InDom, dom2]
+/-- the domain hypothesis of `C06_grad` holds for a straight line `p₀·x + p₁` at every point -/
+example (p : Nat → ℝ) (x : ℝ) : InDom (envOf 2 p x)
+    (Expr.bin .add (Expr.bin .mul (Expr.var 0) (Expr.var 2)) (Expr.var 1) : Expr ℝ) := by
+  simp [InDom, dom2]
 
 end QExPy
